@@ -1012,6 +1012,12 @@ def gen_lean_parts(ob, ns, skip=()):
         doc = "/-- %s : %s\n%s -/" % (r["file"], k, "\n".join("  [%s]" % lab for lab, _, _ in r["goals"]))
         stmt = " ∧\n    ".join(goals)
         opt = "set_option maxHeartbeats 1600000 in\n" if k in heavy else ""
+        # users of a constructor's post-condition: the constructors' size functions must stay atoms,
+        # so the "unfold only the declared depth" attempt is skipped (it fails slowly on these goals)
+        if any(c in OPAQUE for _, b in r["hyps"] for c in calls_of(b)):
+            topl = []
+            if k not in heavy:
+                opt = "set_option maxHeartbeats 800000 in\n"
         text = "%s%s\ntheorem %s %s %s :\n    %s := by\n  c07_use [%s] [%s] [%s]\n" % (
             opt, doc, thm_name(k), vs, hy, stmt, ", ".join(topl), ", ".join(midl), ", ".join(alll))
         if k in skip:
